@@ -128,3 +128,24 @@ def run_eval(w, sexpr, mode='eor', limit=5.0):
         if isinstance(e, KeyboardInterrupt):
             raise
         return ('err', type(e).__name__, buf.getvalue())
+
+
+@contextlib.contextmanager
+def no_optimize():
+    """the optimisation pass switched off everywhere it is applied (also inside eval, eval-file, macroexpand): every module that
+    imported the function gets the identity for the duration"""
+    import importlib
+    saved = []
+    for name in ('wal.core', 'wal.implementation.core', 'wal.implementation.wal', 'wal.wal', 'wal.walc'):
+        try:
+            m = importlib.import_module(name)
+        except Exception:  # noqa: BLE001
+            continue
+        if hasattr(m, 'optimize'):
+            saved.append((m, m.optimize))
+            m.optimize = lambda e: e
+    try:
+        yield
+    finally:
+        for m, f in saved:
+            m.optimize = f
